@@ -251,6 +251,46 @@ def rule_g(R, ctx, rid="C06.g", only=None):
     R.floor(rid, "section writers with an offset first block", n, 1 if only else 2)
 
 
+def rule_h(R, ctx, rid="C06.h"):
+    Y = ctx.yrs
+    R.rule(rid, "R-PROV every arm honours the offset: in Block::encode_with_offset(offset) each block kind drops the first `offset` "
+                "clocks — Item: ItemSlice::new(item, offset, len-1); Skip and GC: the written length is len - offset. Clocks are "
+                "implicit on the wire (consecutive from the announced start clock), so an arm that writes the full length shifts "
+                "every later id of that client in the diff")
+    fn = Y.fn("yrs::block::Block::encode_with_offset")
+    v = FnView(fn)
+    OFF = None
+    for l in range(1, fn.argc() + 1):
+        if fn.local_name(l) == "offset":
+            OFF = l
+    if OFF is None:
+        raise AnchorLost("parameter `offset` of Block::encode_with_offset")
+
+    def is_off(t):
+        t = simp_deep(t)
+        return t[0] == "param" and t[1] == OFF
+
+    n = 0
+    for cs, site in ordinal_sites([c for c in fn.calls() if re.search(r"::(write_var|write_len)$", F.strip_generics(c.name)) and len(c.args) > 1]):
+        variant = None
+        for l in v.guards(cs.bb):
+            if simp(l.term)[0] == "param" and simp(l.term)[1] == 1 and isinstance(l.polarity, str):
+                variant = l.polarity
+        t = simp_deep(v.arg(cs, 1, 12))
+        subs = [x for x in walk(t) if x[0] == "bin" and x[1] in ("Sub", "SubWithOverflow") and is_off(x[3]) and term_has_field(x[2], "BlockRange.len")] + \
+               [x for x in walk(t) if x[0] == "call" and re.search(r"::(saturating_sub|wrapping_sub)$", x[1]) and is_off(x[2][1]) and term_has_field(x[2][0], "BlockRange.len")]
+        n += 1
+        R.ob(rid, fn, "%s:%s" % (variant, site.rsplit("::", 1)[-1]), bool(subs),
+             "%s arm writes %s" % (variant, sshow(t, 6)) if subs else
+             "%s arm writes %s, which does not subtract the offset from the block's length" % (variant, sshow(t, 6)), cs.loc())
+    R.floor(rid, "length writes in encode_with_offset", n, 2)
+    news = fn.calls_to("yrs::slice::ItemSlice::new")
+    R.floor(rid, "ItemSlice::new in encode_with_offset", len(news), 1)
+    for cs, site in ordinal_sites(news):
+        R.ob(rid, fn, "Item:slice-start", len(cs.args) == 3 and is_off(v.arg(cs, 1)),
+             "Item arm encodes the slice starting at %s" % sshow(v.arg(cs, 1), 5), cs.loc())
+
+
 def check(ctx, R):
     from . import wire_rules
     R.run("C06.a", wire_rules.c06_a, ctx)
@@ -260,4 +300,7 @@ def check(ctx, R):
     R.run("C06.e", rule_e, ctx)
     R.run("C06.f", rule_f, ctx)
     R.run("C06.g", rule_g, ctx)
+    R.run("C06.h", rule_h, ctx)
+    from . import shared as _sh
+    R.run("C06.i", lambda R, c: _sh.unapplied_within_range(R, c, "C06.i"), ctx)
     return {}
